@@ -38,6 +38,16 @@ func allocate(v reflect.Value) {
 	case reflect.Interface:
 		// an interface-typed field that already holds a concrete value
 		switch {
+		case v.Type() == packPrims["ifst"]:
+			v.Set(reflect.ValueOf(tHeld{A: 1}))
+		case v.Type() == packPrims["ifpst"]:
+			v.Set(reflect.ValueOf(&tHeld{A: 1}))
+		case v.Type() == packPrims["ifarr"]:
+			v.Set(reflect.ValueOf([2]int64{1, 2}))
+		case v.Type() == packPrims["ifsl"]:
+			v.Set(reflect.ValueOf([]int64{1, 2}))
+		case v.Type() == packPrims["ifmap"]:
+			v.Set(reflect.ValueOf(map[string]int64{"z": 1}))
 		case v.NumMethod() == 0:
 			v.Set(reflect.ValueOf("old"))
 		case v.Type() == packPrims["iunp"]:
@@ -59,7 +69,7 @@ func allocate(v reflect.Value) {
 		m := reflect.MakeMap(v.Type())
 		e := reflect.New(v.Type().Elem()).Elem()
 		allocate(e)
-		m.SetMapIndex(reflect.ValueOf("k"), e)
+		m.SetMapIndex(reflect.ValueOf("k").Convert(v.Type().Key()), e)
 		v.Set(m)
 	}
 }
@@ -75,6 +85,25 @@ func init() {
 	packPrims["nbool"] = reflect.TypeOf(ntBool(false))
 	packPrims["nint"] = reflect.TypeOf(ntInt(0))
 	packPrims["nfloat"] = reflect.TypeOf(ntFloat(0))
+}
+
+// interface{} fields that already HOLD a value of a given shape (kinds ifst, ifpst, ifarr, ifsl, ifmap): named empty
+// interface types, so that allocate knows what to put there
+type tHeld struct {
+	A int `config:"x"`
+}
+type ifSt interface{}
+type ifPSt interface{}
+type ifArr interface{}
+type ifSl interface{}
+type ifMap interface{}
+
+func init() {
+	packPrims["ifst"] = reflect.TypeOf((*ifSt)(nil)).Elem()
+	packPrims["ifpst"] = reflect.TypeOf((*ifPSt)(nil)).Elem()
+	packPrims["ifarr"] = reflect.TypeOf((*ifArr)(nil)).Elem()
+	packPrims["ifsl"] = reflect.TypeOf((*ifSl)(nil)).Elem()
+	packPrims["ifmap"] = reflect.TypeOf((*ifMap)(nil)).Elem()
 }
 
 // types whose method set LOOKS like an unpacker but is not one (kinds of the target universe):
